@@ -248,11 +248,21 @@ class TopoModel(Model):
         out.sort(key=lambda x: (x[0], x[1].name))
         # the driver addresses ports by (node, name): of several same-named ports of one node (legal when they belong to
         # different services) only the first-listed is ever addressed; the others just exist
-        seen, first = set(), []
+        groups = {}
         for a, i in out:
-            if (a, i.name) not in seen:
-                seen.add((a, i.name))
-                first.append((a, i))
+            groups.setdefault((a, i.name), []).append(i)
+        first = []
+        for (a, nm), lst in groups.items():
+            if len(lst) > 1:
+                # the one whose owning service comes first by name (listing order of a node's interfaces is not a contract)
+                def owner_name(i):
+                    try:
+                        return self.t.get_parent_element(i).name
+                    except Exception:
+                        return '~'
+                lst = sorted(lst, key=owner_name)
+            first.append((a, lst[0]))
+        first.sort(key=lambda x: (x[0], x[1].name))
         return first
 
     def port(self, nn, iname):
